@@ -4,6 +4,7 @@ from typing import Sequence
 from qib.simulator import Simulator
 from qib.circuit import Circuit
 from qib.field import Field
+from qib.operator import ControlInstruction
 
 
 class StatevectorSimulator(Simulator):
@@ -21,6 +22,8 @@ class StatevectorSimulator(Simulator):
         psi[0] = 1
         # apply gates
         for g in circ.gates:
+            # control instructions (barrier, measurement, delay) do not act on the state
+            if isinstance(g, ControlInstruction): continue
             # TODO: matrix-free application of gate
             psi = g.as_circuit_matrix(fields) @ psi
         return psi
